@@ -141,8 +141,7 @@ void h_query(void) {
     }
     V_ASSERT(sn.n <= pre_n && g_live_blocks == live0 - ((long)pre_n - (long)sn.n), "C19: after a Query exactly the observations still recorded stay allocated; the QueryResp buffer and retired observations are released");
     /* C05's domain: commands come from the active mapper or while none is active; a stranger's Query is left unconstrained */
-    if (!in.st.known) V_ASSERT(ST->mapper_known == 1 && mac6_eq(ST->mapper_real.a, in.frame + F_RSRC) && mac6_eq(ST->mapper_apparent.a, in.frame + F_ESRC),
-                               "C05: a Query that opens the session makes its real source the mapper and its Ethernet source the apparent mapper");
+    if (!in.st.known) V_ASSERT(ST->mapper_known == 1 && mac6_eq(ST->mapper_real.a, in.frame + F_RSRC), "C05: a Query that opens the session makes its real source the mapper");
     else if (mac6_eq(in.frame + F_RSRC, in.st.mreal)) V_ASSERT(ST->mapper_known == 1 && mac6_eq(ST->mapper_real.a, in.st.mreal), "C05: a Query from the active mapper keeps it the mapper");
     V_ASSERT(ST->mapper_seq == be16(in.frame + F_SEQ), "C07: sequence number of the Query remembered");
     V_WITNESS("h_query end");
@@ -323,7 +322,7 @@ void h_sweep(void) {
     unsigned total = r_hello + r_emit + r_probe + r_query + r_qltlv;
     V_ASSERT(total <= 1, "C05: at most one handler per frame");
     V_ASSERT(g_nsend == 0, "C02: dispatch itself transmits nothing");
-    bool id_same = ST->mapper_known == before.mapper_known && mac6_eq(ST->mapper_real.a, before.mapper_real.a) && mac6_eq(ST->mapper_apparent.a, before.mapper_apparent.a);
+    bool id_same = ST->mapper_known == before.mapper_known && (!before.mapper_known || mac6_eq(ST->mapper_real.a, before.mapper_real.a));
     if (!is_disc_tos(tos)) {
         V_ASSERT(total == 0, "C05: frames of other services reach no handler");
         V_ASSERT(id_same, "C05: frames of other services never establish, change or release the mapper");
@@ -332,8 +331,7 @@ void h_sweep(void) {
     } else if (op == opcode_discover) {
         if (!before.mapper_known) {
             V_ASSERT(r_hello == 1, "C05: with no active mapper the next Discover from any station is accepted");
-            V_ASSERT(ST->mapper_known == 1 && mac6_eq(ST->mapper_real.a, in.frame + F_RSRC) && mac6_eq(ST->mapper_apparent.a, in.frame + F_ESRC),
-                     "C05: the accepted Discover's sender becomes the active mapper (real and apparent address)");
+            V_ASSERT(ST->mapper_known == 1 && mac6_eq(ST->mapper_real.a, in.frame + F_RSRC), "C05: the accepted Discover's sender becomes the active mapper");
         } else if (match) {
             V_ASSERT(r_hello == 1, "C05: every Discover from the active mapper is answered");
             V_ASSERT(id_same, "C05: a Discover from the active mapper leaves the mapper unchanged");
